@@ -419,12 +419,39 @@ where
     A: Subscribe<C>,
     C: Collect,
 {
+    /// Returns a `Layered` whose `inner` value is the collector itself (as
+    /// constructed by [`Subscribe::with_collector`]).
     pub(super) fn new(subscriber: A, inner: B, inner_has_subscriber_filter: bool) -> Self {
         #[cfg(all(feature = "registry", feature = "std"))]
         let inner_is_registry = TypeId::of::<C>() == TypeId::of::<crate::registry::Registry>();
         #[cfg(not(all(feature = "registry", feature = "std")))]
         let inner_is_registry = false;
+        Self::new_inner(
+            subscriber,
+            inner,
+            inner_has_subscriber_filter,
+            inner_is_registry,
+        )
+    }
 
+    /// Returns a `Layered` whose `inner` value is another subscriber (as
+    /// constructed by [`Subscribe::and_then`]). Here, `inner` is never the
+    /// registry, even when the collector that the composed subscribers will
+    /// eventually be added to is.
+    pub(super) fn new_subscribers(
+        subscriber: A,
+        inner: B,
+        inner_has_subscriber_filter: bool,
+    ) -> Self {
+        Self::new_inner(subscriber, inner, inner_has_subscriber_filter, false)
+    }
+
+    fn new_inner(
+        subscriber: A,
+        inner: B,
+        inner_has_subscriber_filter: bool,
+        inner_is_registry: bool,
+    ) -> Self {
         let inner_has_subscriber_filter = inner_has_subscriber_filter || inner_is_registry;
         let has_subscriber_filter = filter::subscriber_has_psf(&subscriber);
         Self {
